@@ -329,6 +329,9 @@ def run():
     import translate
 
     facts["translated"] = translate.run()
+    import translate_wrap
+
+    facts["translated_wrappers"] = translate_wrap.run()
     return facts
 
 
